@@ -640,24 +640,60 @@ func verifStubRowsScan(r *sql.Rows, dest ...any) error {
 	return nil
 }
 
-// base64 as an injective, reversible text encoding (inside gosx only); the alphabet is part
-// of the encoding, so text written with one alphabet does not decode with the other
-func verifB64Tag(e *base64.Encoding) string {
+// base64 as an injective, reversible text encoding (inside gosx only). The standard and the
+// URL alphabet differ exactly in the characters for the 6-bit values 62 and 63, so text
+// written with one decodes with the other unless such a value occurs: the model tags the
+// text with the alphabet only in that case (counterexamples then reproduce natively).
+func verifB64Needs6263(src []byte) bool {
+	hit := false
+	for i := 0; i < len(src); i += 3 {
+		var b0, b1, b2 byte
+		b0 = src[i]
+		n := 1
+		if i+1 < len(src) {
+			b1 = src[i+1]
+			n = 2
+		}
+		if i+2 < len(src) {
+			b2 = src[i+2]
+			n = 3
+		}
+		g := []byte{b0 >> 2, (b0&3)<<4 | b1>>4, (b1&15)<<2 | b2>>6, b2 & 63}
+		for k := 0; k <= n; k++ {
+			if g[k] >= 62 {
+				hit = true
+			}
+		}
+	}
+	return hit
+}
+
+func verifB64Tag(e *base64.Encoding, src []byte) string {
 	if e == base64.StdEncoding {
+		return "b64s:"
+	}
+	if e == base64.URLEncoding {
+		if verifB64Needs6263(src) {
+			return "b64u:"
+		}
 		return "b64s:"
 	}
 	return "b64?:"
 }
 
 //verif:stub (*encoding/base64.Encoding).EncodeToString
-func verifStubB64Enc(e *base64.Encoding, src []byte) string { return verifB64Tag(e) + string(src) }
+func verifStubB64Enc(e *base64.Encoding, src []byte) string { return verifB64Tag(e, src) + string(src) }
 
 //verif:stub (*encoding/base64.Encoding).DecodeString
 func verifStubB64Dec(e *base64.Encoding, s string) ([]byte, error) {
-	if !strings.HasPrefix(s, verifB64Tag(e)) {
+	if len(s) < 5 {
+		return nil, errors.New("verif: not base64")
+	}
+	body := []byte(s[5:])
+	if s[:5] != verifB64Tag(e, body) {
 		return nil, errors.New("verif: not base64 of this alphabet")
 	}
-	return []byte(s[5:]), nil
+	return body, nil
 }
 
 var verifDBPath string
